@@ -28,30 +28,36 @@ from .gitsim import Sim, parse_note, session_hash
 from .world import World, SESSIONS, TOOL
 from . import hist
 
-GEN_FILES = []
+GEN_FILES = ["GenRemap"]
 DRIVERS = ["remap"]
 THEOREMS = ["C15_comparator_sound", "C15_print_parse", "C15_decline_safe", "C15_truncation_safe",
-            "C15_partial_pairs_decline", "C15_shortcut_writes", "C15_remap_field_only", "C15_remap_base_only",
-            "C15_remap_note_base_only", "C15_remap_refuted", "C15_nonvacuous"]
+            "C15_partial_pairs_decline", "C15_shortcut_writes", "C15_remap_field_only", "C15_metadata_start",
+            "C15_remap_scoped_base_only", "C15_remap_scoped_no_divider", "C15_remap_note_scoped",
+            "C15_remap_base_only", "C15_remap_note_base_only", "C15_remap_unscoped_refuted", "C15_nonvacuous"]
 CLAIM = {
     "text": "Partial proof + system-level differential oracle. Proved (closed, all byte strings): the comparator's "
             "scanning loop answers `match` on a printed diff-tree output iff no pair has a record (and the pathspec-"
             "limited output has a record iff a tracked path changed); the printed format parses back uniquely; fewer "
             "header lines than pairs, or a cut anywhere before the end, never yields `match` unless what was read is "
             "literally the complete no-delta output; when the comparator says no for any pair the shortcut writes "
-            "nothing; the byte-level rewrite changes exactly the value of the metadata's base_commit_sha when the "
-            "marker text does not occur earlier in the note, and mis-rewrites a path line otherwise "
-            "(C15_remap_refuted, checked on the real function). Equivalence with the full content replay is decided "
+            "nothing; the byte-level rewrite (repaired shape: the field is searched below the first divider line, which is "
+            "the reader's divider) changes exactly the value of the metadata's base_commit_sha for every note that has "
+            "a divider and the field, whatever its paths contain; the historical whole-note search is proved to "
+            "mis-rewrite a path line that contains the marker text (C15_remap_unscoped_refuted), and the check requires "
+            "the translator fact that the tree has the repaired shape. Equivalence with the full content replay is decided "
             "by running every generated rewrite twice (shortcut on / off) from a copy of the same repository.",
     "design_ref": "DESIGN.md §4 C15",
     "note": "The full equality is false today (known classes: K1 the slow path's notes are cumulative, K2 it loses or "
             "re-colours lines that do not survive to the end of the range, K3 its prompt counters are not the original "
-            "commit's, K4 the byte-level rewrite hits a path line that contains the marker text); the restricted "
-            "equality and blame equality are the oracle there.",
+            "commit's, K5 it colours mixed-author hunks by one author); the restricted equality and blame equality are "
+            "the oracle there. Former class K4 (marker text in a path) is repaired: its witness is a regression that "
+            "must pass and no predicate excuses a rewrite failure.",
     "technique": "Coq proof over extracted model + in-process correspondence + system-level A/B differential",
 }
 TRUSTED_BASE = [
     "Coq 8.16.1 kernel; theorems closed under the global context",
+    "tools/gen/GenRemap.py (field marker, whitespace set of the skip loops, WHERE the marker is searched: whole note / "
+    "below the first divider line; any third shape is refused)",
     "extraction (ExtrOcamlBasic) + d_remap.ml; harness/src/p_c15.rs",
     "vlib/gitsim.py, vlib/world.py (history engine, strict note parser), vlib/hist.py (git_added_lines)",
     "modelled not verified: git diff-tree's pathspec limiting (monitored: every dumped record names a tracked "
@@ -69,7 +75,7 @@ ASSUMPTIONS = [
 FIRE_LINE = "Fast-path remapped authorship logs for"
 CMP_TRUE_LINE = "compared tracked blobs for"
 
-TRACKED_POOL = ["a.txt", "src/b.rs", "c d.py", "dir é/ü n.txt", "日本 語.md", "x[1].txt"]
+TRACKED_POOL = ["a.txt", "src/b.rs", "c d.py", "dir é/ü n.txt", "日本 語.md", "x[1].txt", '"base_commit_sha":"x".txt']
 OTHER_POOL = ["o.txt", "up/other file.txt"]
 
 KINDS = ["rebase_fire", "cherry_fire", "rebase_untracked_only", "cherry_untracked_only",
@@ -571,8 +577,9 @@ def scenario(args):
 
 
 def witness_k4(base):
-    """a tracked file whose name contains the marker text followed by a colon and a quoted string: the shortcut
-    rewrites the path line instead of the metadata field; blame loses the AI line (the full replay keeps it)"""
+    """regression (former known class C15-K4 = C05-K3): a tracked file whose name contains the marker text followed by a
+    colon and a quoted string.  The historical rewrite hit the path line instead of the metadata field and blame lost
+    the AI line; shortcut and full replay must agree (paths, base, blame)."""
     simA = Sim(base, "k4-A")
     simB = None
     try:
@@ -829,6 +836,13 @@ def run(ctx):
     def known(label, n=1):
         known_seen[label] = known_seen.get(label, 0) + n
 
+    # the positive theorems about the rewrite are about the repaired shape: the tree must have it
+    gen = open(os.path.join(C.COQ, "Gen", "GenRemap.v")).read() if os.path.exists(os.path.join(C.COQ, "Gen", "GenRemap.v")) else ""
+    scoped = "Definition remap_below_divider : bool := true." in gen
+    obligations.append(("fact: try_remap_base_commit_sha_field searches the field below the first divider line "
+                        "(GenRemap.remap_below_divider = true)", scoped,
+                        "" if scoped else "the source has the historical whole-note search (finding C15-K4 / C05-K3 not repaired)"))
+
     # =============================================================== (2) in-process: comparator
     repo, head = _mk_cmp_repo(ctx.scratch)
     os.environ["C15_REPO"], os.environ["C15_HEAD"] = repo, head
@@ -931,8 +945,7 @@ def run(ctx):
     cases = [(i, C.sx(bl(t.encode())) + " " + C.sx(bl(tg.encode()))) for i, _, t, tg, _, _, _ in notes]
     impl = C.run_cases(C.VHARNESS, "c15-remap", cases)
     model = C.run_cases(C.driver_path("remap"), "c15-remap", cases) if ctx.model_ok else {}
-    n_wf = n_valid = n_k4 = 0
-    wit_ok = False
+    n_wf = n_hb = n_valid = 0
     for i, kind, text, target, valid, mk_att, att in notes:
         a = impl.get(i)
         distinct.add(("remap", text, target))
@@ -941,38 +954,35 @@ def run(ctx):
             continue
         xa = {x[0]: x[1:] for x in C.sx_parse_many(a) if isinstance(x, list)}
         full = bytes(xa["full"][0]).decode("utf-8", "replace")
-        wf = None
+        wf = hb = None
         if ctx.model_ok:
             m = model.get(i, "")
             if not m or m.startswith("driver-exception"):
                 mism.append(f"{i}: model driver failed on a {kind} note")
             else:
                 xm = {x[0]: x[1:] for x in C.sx_parse_many(m) if isinstance(x, list)}
-                wf = xm["wf"][0] == 1
+                wf, hb = xm["wf"][0] == 1, xm["hb"][0] == 1
                 if xm["try"] != xa["try"]:
                     mism.append(f"{i} ({kind}): try_remap differs: model {str(xm['try'])[:60]} impl {str(xa['try'])[:60]}")
-                if wf:
-                    n_wf += 1
-                    if bytes(xm["rb"][0]) != bytes(xa["full"][0]):
-                        mism.append(f"{i} ({kind}): wf_note holds but replace_base differs from the real remap")
+                if xm["ms"][0] != 1:
+                    mism.append(f"{i} ({kind}): meta_split differs from split_note")
+                n_wf += wf
+                n_hb += hb
+                # hypotheses of C15_remap_note_base_only (either shape) / C15_remap_note_scoped (repaired shape)
+                if (wf or (hb and scoped)) and bytes(xm["rb"][0]) != bytes(xa["full"][0]):
+                    mism.append(f"{i} ({kind}): the theorem's hypothesis holds but replace_base differs from the real remap")
         # the property speaks about targets that are commit ids; other targets are compared model vs impl only
         if valid and target and all(ch in HEXD for ch in target) or i == "wit":
             n_valid += 1
             ok, why = remap_oracle(text, att, full, target)
             if not ok:
-                if mk_att and wf is not True:
-                    n_k4 += 1
-                    known("C15-K4 a tracked path containing the marker text \"base_commit_sha\": the byte-level rewrite hits the path "
-                          "line (or falls back to a lossy re-serialisation); the metadata keeps the old base")
-                    if i == "wit":
-                        wit_ok = xa["try"] != ["none"] and '"base_commit_sha": "0ld"' in full and ':"n3w".txt' in full
-                else:
-                    violations.append((f"remapped note differs from the original beyond the base field ({why}); note kind {kind}",
-                                       {"kind": "remap", "note": text, "target": target, "result": full, "model_wf": wf}))
-    obligations.append(("witness: C15_remap_refuted's note is mis-rewritten by the real function (path line changed, base kept)",
-                        wit_ok, ""))
+                # no class predicate excuses this any more (former C15-K4: marker text in a path)
+                violations.append((f"remapped note differs from the original beyond the base field ({why}); note kind {kind}"
+                                   + ("; the attestation section contains the marker text (regression of C15-K4)" if mk_att else ""),
+                                   {"kind": "remap", "note": text, "target": target, "result": full, "model_wf": wf,
+                                    "model_has_base_field": hb, "marker_in_attestation": mk_att}))
     cov["remap_cases"] = {"notes": len(notes), "kinds": nk_hist, "valid": n_valid, "wf_note_true": n_wf,
-                          "oracle_failures_in_K4": n_k4}
+                          "has_base_field_true": n_hb, "marker_in_attestation": sum(1 for n_ in notes if n_[5])}
 
     # =============================================================== (3) system level
     items = plan(ctx.tier)
@@ -1056,19 +1066,22 @@ def run(ctx):
             xm = {x[0]: x[1:] for x in C.sx_parse_many(mo.get(str(k), "")) if isinstance(x, list)}
             if not xm or xm["try"] == ["none"] or bytes(xm["try"][0][1]) != bytes.fromhex(c["got"]):
                 sys_mism.append(f"scenario {idx}: the note written by the shortcut is not try_remap of the original note")
-            if xm and xm["wf"][0] == 1:
+            if xm and xm["hb" if scoped else "wf"][0] == 1:
                 nwf += 1
-        obligations.append(("monitor: wf_note holds for every original note the shortcut copied", nwf == len(remap_cases),
+        obligations.append(("monitor: the hypothesis of the rewrite theorem (has_base_field; wf_note for the historical shape) "
+                            "holds for every original note the shortcut copied", nwf == len(remap_cases),
                             f"{nwf}/{len(remap_cases)}"))
-    # deterministic witness of K4 at system level
+    # regression witness (former K4) at system level: must pass
     try:
         wk4 = witness_k4(ctx.scratch)
-        if wk4["fails"]:
-            known("C15-K4 a tracked path containing the marker text \"base_commit_sha\": the byte-level rewrite hits the path "
-                  "line (or falls back to a lossy re-serialisation); the metadata keeps the old base")
-        cov["witness_k4"] = wk4
+        cov["regression_marker_in_path"] = wk4
+        if not wk4["fired"]:
+            obligations.append(("regression witness (marker text in a path): the shortcut fired", False, ""))
+        elif wk4["fails"]:
+            violations.append(("rebase of a commit touching the file \"base_commit_sha\":\"x\".txt: the shortcut's note / blame "
+                               "differ from the full replay (regression of C15-K4)", {"kind": "witness-k4", "result": wk4}))
     except Exception as e:  # a witness that cannot run is a broken check
-        obligations.append(("witness C15-K4 runs", False, repr(e)[:200]))
+        obligations.append(("regression witness (marker text in a path) runs", False, repr(e)[:200]))
     obligations.append(("tie:correspondence Model/Remap.v vs the real scanning loop and the real rewrite (in-process)",
                         ctx.model_ok and not mism, "; ".join(mism[:3]) if mism else ("" if ctx.model_ok else "model did not build")))
     obligations.append(("tie:correspondence Model/Remap.v vs the real comparator inputs/decisions and the notes written by the "
